@@ -17,14 +17,28 @@
 (*   MarkWritten     the flush marks persisted exactly what it wrote       *)
 (*   EpochGuard      a schema loaded before a completed flush is neither   *)
 (*                   cached nor used by get-or-create                      *)
+(*                                                                         *)
+(* Storage level: every flush leaves one FILE with the entries it wrote    *)
+(* (a delta: only what was not marked persisted); a lookup that misses     *)
+(* memory and cache reads the union of all files.  The level-0 compaction  *)
+(* of the family (kv job scheduler / Family.Compact, background job, any   *)
+(* time) picks the files that exist, merges them with the family's merger  *)
+(* (index/v1/metric_schema_merger.go) and installs the output in place of  *)
+(* its inputs.  Switch                                                     *)
+(*   MergeAll        the merged file holds every entry of its inputs (the  *)
+(*                   merger loads the input blocks as NOT persisted, so    *)
+(*                   the delta-only writer writes them all again); FALSE = *)
+(*                   the inputs are loaded "already persisted", the writer *)
+(*                   skips them and the output is empty                    *)
 (***************************************************************************)
 EXTENDS Integers, Sequences, FiniteSets, TLC
 
 CONSTANTS Name, Thread, MaxObj, MaxFlush,
-          UseStoreSchema, MarkWritten, EpochGuard
+          UseStoreSchema, MarkWritten, EpochGuard, MergeAll
 
 VARIABLES
-  kv,       \* set of [name, id]: persisted entries (all flushed files together)
+  files,    \* Seq(set of [name, id]): the files of the family, oldest first (a flush appends one)
+  cj,       \* compaction job: number of files it picked (the oldest cj files), 0 = no job
   heap,     \* Seq(set of [name, id, p]): schema objects; p = marked persisted
   mut, imm, cache,   \* object index or 0
   flushes,  \* completed flushes
@@ -32,11 +46,14 @@ VARIABLES
   th,       \* [Thread -> [pc, name, ref, e]]
   ret       \* ghost: set of [name, id] returned to callers
 
-vars == <<kv, heap, mut, imm, cache, flushes, fl, th, ret>>
+vars == <<files, cj, heap, mut, imm, cache, flushes, fl, th, ret>>
+
+\* what a reader of the current version sees: the persisted entries of all files together
+kv == UNION {files[i] : i \in 1..Len(files)}
 
 Idle == [pc |-> "idle", name |-> "", ref |-> 0, e |-> 0]
 Init ==
-  /\ kv = {} /\ heap = << >> /\ mut = 0 /\ imm = 0 /\ cache = 0 /\ flushes = 0
+  /\ files = << >> /\ cj = 0 /\ heap = << >> /\ mut = 0 /\ imm = 0 /\ cache = 0 /\ flushes = 0
   /\ fl = [pc |-> "idle", snap |-> {}, n |-> 0]
   /\ th = [t \in Thread |-> Idle] /\ ret = {}
 
@@ -52,7 +69,7 @@ Begin(t, nm) ==
      ELSE IF imm # 0 THEN th' = [th EXCEPT ![t] = [pc |-> "locked?", name |-> nm, ref |-> imm, e |-> flushes]]
      ELSE IF cache # 0 THEN th' = [th EXCEPT ![t] = [pc |-> "locked?", name |-> nm, ref |-> cache, e |-> flushes]]
      ELSE th' = [th EXCEPT ![t] = [pc |-> "load", name |-> nm, ref |-> 0, e |-> flushes]]
-  /\ UNCHANGED <<kv, heap, mut, imm, cache, flushes, fl, ret>>
+  /\ UNCHANGED <<files, cj, heap, mut, imm, cache, flushes, fl, ret>>
 
 \* ... the kv snapshot is read: a fresh object with everything persisted so far (nil if nothing is)
 Load(t) ==
@@ -60,14 +77,14 @@ Load(t) ==
   /\ IF kv = {} THEN /\ th' = [th EXCEPT ![t].pc = "locked?"] /\ UNCHANGED heap
      ELSE /\ heap' = Append(heap, {[name |-> x.name, id |-> x.id, p |-> TRUE] : x \in kv})
           /\ th' = [th EXCEPT ![t].pc = "cacheadd", ![t].ref = Len(heap) + 1]
-  /\ UNCHANGED <<kv, mut, imm, cache, flushes, fl, ret>>
+  /\ UNCHANGED <<files, cj, mut, imm, cache, flushes, fl, ret>>
 
 \* ... and cached
 CacheAdd(t) ==
   /\ th[t].pc = "cacheadd"
   /\ cache' = IF EpochGuard /\ flushes # th[t].e THEN cache ELSE th[t].ref
   /\ th' = [th EXCEPT ![t].pc = "locked?"]
-  /\ UNCHANGED <<kv, heap, mut, imm, flushes, fl, ret>>
+  /\ UNCHANGED <<files, cj, heap, mut, imm, flushes, fl, ret>>
 
 \* ---- step 2: the lock section
 Finish(t, o, h) ==       \* find or append in object o of heap h
@@ -100,22 +117,23 @@ LockSection(t) ==
                 o == IF UseStoreSchema THEN m ELSE r
             IN /\ (fresh => Len(heap) < MaxObj)
                /\ Finish(t, o, h0) /\ mut' = m /\ th' = [th EXCEPT ![t] = Idle]
-  /\ UNCHANGED <<kv, imm, cache, flushes, fl>>
+  /\ UNCHANGED <<files, cj, imm, cache, flushes, fl>>
 
 \* ---- the flusher
 PrepareFlush ==
   /\ fl.pc = "idle" /\ fl.n < MaxFlush
   /\ IF imm = 0 THEN imm' = mut /\ mut' = 0 ELSE UNCHANGED <<imm, mut>>
   /\ fl' = [fl EXCEPT !.pc = "prepared", !.n = @ + 1]
-  /\ UNCHANGED <<kv, heap, cache, flushes, th, ret>>
+  /\ UNCHANGED <<files, cj, heap, cache, flushes, th, ret>>
 
 \* the entries that will be written (a copy under the lock -- or, before the repair, simply what is there now)
 FlushWrite ==
   /\ fl.pc = "prepared"
-  /\ IF imm = 0 THEN fl' = [fl EXCEPT !.pc = "idle"] /\ UNCHANGED kv
-     ELSE /\ kv' = kv \cup Strip({x \in heap[imm] : ~x.p})
+  /\ IF imm = 0 THEN fl' = [fl EXCEPT !.pc = "idle"] /\ UNCHANGED files
+     ELSE /\ LET delta == Strip({x \in heap[imm] : ~x.p}) IN
+             files' = IF delta = {} THEN files ELSE Append(files, delta)   \* NeedWrite: nothing new, no block
           /\ fl' = [fl EXCEPT !.pc = "written", !.snap = Strip(heap[imm])]
-  /\ UNCHANGED <<heap, mut, imm, cache, flushes, th, ret>>
+  /\ UNCHANGED <<cj, heap, mut, imm, cache, flushes, th, ret>>
 
 FlushMark ==
   /\ fl.pc = "written"
@@ -123,17 +141,34 @@ FlushMark ==
                                      p |-> IF MarkWritten THEN (x.p \/ [name |-> x.name, id |-> x.id] \in fl.snap) ELSE TRUE] : x \in @}]
   /\ imm' = 0 /\ cache' = 0 /\ flushes' = flushes + 1
   /\ fl' = [fl EXCEPT !.pc = "idle", !.snap = {}]
-  /\ UNCHANGED <<kv, mut, th, ret>>
+  /\ UNCHANGED <<files, cj, mut, th, ret>>
+
+\* ---- level-0 compaction of the family (background job; Family.Compact: more than one file)
+CompactPick ==
+  /\ cj = 0 /\ Len(files) > 1
+  /\ cj' = Len(files)
+  /\ UNCHANGED <<files, heap, mut, imm, cache, flushes, fl, th, ret>>
+
+\* the merger's output replaces the picked files in one version edit; files flushed meanwhile stay.
+\* The store neither purges its cache nor counts this as a flush: the content did not change.
+CompactInstall ==
+  /\ cj > 0
+  /\ LET inputs == UNION {files[i] : i \in 1..cj}
+         merged == IF MergeAll THEN inputs ELSE {}
+     IN files' = <<merged>> \o SubSeq(files, cj + 1, Len(files))
+  /\ cj' = 0
+  /\ UNCHANGED <<heap, mut, imm, cache, flushes, fl, th, ret>>
 
 Next ==
   \/ \E t \in Thread, nm \in Name : Begin(t, nm)
   \/ \E t \in Thread : Load(t) \/ CacheAdd(t) \/ LockSection(t)
   \/ PrepareFlush \/ FlushWrite \/ FlushMark
+  \/ CompactPick \/ CompactInstall
 
 Spec == Init /\ [][Next]_vars
 
 \* ------------------------------------------------------------------ properties (C09 for field ids)
-Quiet == fl.pc = "idle" /\ \A t \in Thread : th[t].pc = "idle"
+Quiet == fl.pc = "idle" /\ cj = 0 /\ \A t \in Thread : th[t].pc = "idle"
 \* what a lookup answers: memory first, then the cache, then the kv snapshot
 Visible == IF mut # 0 THEN Strip(heap[mut]) ELSE IF imm # 0 THEN Strip(heap[imm])
            ELSE IF cache # 0 THEN Strip(heap[cache]) ELSE kv
